@@ -195,11 +195,15 @@ class Engine:
 
     # ---- findings ----
     def load_findings(self):
-        try:
-            allf = json.load(open(FINDINGS))
-        except FileNotFoundError:
-            return []
-        return [f for f in allf.get("findings", []) if f.get("property") == self.pid]
+        """KNOWN_FINDINGS.json plus the per-property fragments findings/<id>.json (same entry format)."""
+        out = []
+        for path in [FINDINGS, os.path.join(VERIF, "findings", self.pid + ".json")]:
+            try:
+                allf = json.load(open(path))
+            except FileNotFoundError:
+                continue
+            out += [f for f in allf.get("findings", []) if f.get("property") == self.pid]
+        return out
 
     def classify(self, v):
         if hasattr(self.mod, "classify"):
